@@ -618,7 +618,7 @@ def run(ctx):
         if ctx.time_left() < 100:
             ctx.count('stopped_early_time')
             break
-        for fc in rng.sample(core, ctx.n(3, 8)):
+        for fc in rng.sample(core, min(len(core), ctx.n(3, 8))):
             if fc.read == 'ok':
                 check_pair(ctx, fc, ent, requests, selfcheck=False)
     # many-candidate cases: unconstrained chains and stars on the largest molecules (hundreds to thousands of candidates)
@@ -628,7 +628,7 @@ def run(ctx):
     for ent in big:
         if ctx.time_left() < 100:
             break
-        for fc in rng.sample(dense, ctx.n(2, 5)):
+        for fc in rng.sample(dense, min(len(dense), ctx.n(2, 5))):
             ctx.count('dense_pairs')
             check_pair(ctx, fc, ent, requests, selfcheck=False)
     run_model(ctx, requests, fcs)
